@@ -22,7 +22,7 @@
 //! `c31rebuild <E>`  -> `ok:<t|f>|<t|f>|<t|f>`   c == rebuilt from its rgb / hsl / hwb channel reports
 //! `c31eq <E> <E>`   -> `ok:<t|f>`
 //! `cfmt <e|c> <precision> <E>` -> `ok:<hex of emitted text>|<the nine channel reports of the colour at precision 16>`
-//! `c32 <E> <E>`     -> `ok:<t|f>|<chan report of first>|<chan report of second>`
+//! `c32 <law> <E1> <E2>` -> `ok:<t|f>|<nine channel reports of E1>|<nine channel reports of E2>` (E1 == E2; precision 10)
 //! every op answers `err:<hex message>` when the compilation fails.
 use crate::util::*;
 use rsass::value::Rgba;
@@ -245,7 +245,8 @@ pub fn run(op: &str, f: &[&str]) -> Option<String> {
             }
         }
         "c32" => {
-            let (Some(a), Some(b)) = (f.first().and_then(|s| whole(s)), f.get(1).and_then(|s| whole(s)))
+            // f[0] is the law tag (used by the Python oracle only)
+            let (Some(a), Some(b)) = (f.get(1).and_then(|s| whole(s)), f.get(2).and_then(|s| whole(s)))
             else {
                 return Some("bad-args".into());
             };
